@@ -448,6 +448,43 @@ pub fn c11x_bulk_nofit() {
     assert!(false, "RETURNED: a bulk write that does not fit must panic");
 }
 
+// @h props=C11,C13,C02 tier=quick group=bulk allow=observed.panic_advance must_fail=observed.panic_advance note=bulk_write_that_does_not_fit_into_&mut[u8]/&mut[MaybeUninit<u8>]_(specialised_bodies)_panics_before_touching_memory
+#[kani::proof]
+#[kani::unwind(6)]
+#[kani::stub(core::slice::index::slice_index_fail, stub_slice_index_fail)]
+#[kani::stub(bytes::panic_advance, observing_panic_advance)]
+pub fn c11x_bulk_nofit_slices() {
+    // the slice targets carry their own put_slice / put_bytes bodies (raw copies guarded by a length check): the check must come
+    // BEFORE the copy - at the moment the panic is raised every byte outside the window still holds the guard value
+    let mut mem = [G; N];
+    let lo = 1usize;
+    let cap = any_len(2);
+    unsafe { observe_guards(mem.as_ptr(), N, 0, 0) };
+    let (src, sl) = any_src();
+    kani::assume(sl > cap);
+    let op: u8 = kani::any();
+    kani::assume(op < 3);
+    let uninit: bool = kani::any();
+    end_reached!();
+    if uninit {
+        let mu: &mut [core::mem::MaybeUninit<u8>; N] = unsafe { &mut *(&mut mem as *mut [u8; N] as *mut [core::mem::MaybeUninit<u8>; N]) };
+        let mut w: &mut [core::mem::MaybeUninit<u8>] = &mut mu[lo..lo + cap];
+        match op {
+            0 => w.put_slice(&src[..sl]),
+            1 => w.put_bytes(7, sl),
+            _ => w.put(&src[..sl]),
+        }
+    } else {
+        let mut w: &mut [u8] = &mut mem[lo..lo + cap];
+        match op {
+            0 => w.put_slice(&src[..sl]),
+            1 => w.put_bytes(7, sl),
+            _ => w.put(&src[..sl]),
+        }
+    }
+    assert!(false, "RETURNED: a bulk write that does not fit must panic");
+}
+
 // ------------------------------------------------------------------------------------------ Writer / Reader (C12)
 // @h props=C12 tier=quick group=io note=Writer::write_transfers_min(remaining_mut,len)_and_never_fails
 #[cfg(feature = "std")]
